@@ -8,6 +8,10 @@ CONSTRUCTS = [
     ("compare_chain", "def entry(a, b):\n    r = 0\n    if a < b:\n        r = r + 1\n    if a <= b:\n        r = r + 2\n    if a == b:\n        r = r + 4\n    if a != b:\n        r = r + 8\n    if a > b:\n        r = r + 16\n    if a >= b:\n        r = r + 32\n    return r\n"),
     ("bool_ops", "def entry(a, b):\n    x = a and b\n    y = a or b\n    z = not a\n    print(x, y, z)\n    return (a > 0 and b > 0) or (a < 0 and not b)\n"),
     ("unary", "def entry(a, b):\n    return -a + (-b) - -a\n"),
+    ("unary_compound", "def entry(a, b):\n    x = -(a + b)\n    y = 0\n    if not (a > b):\n        y = 1\n    xs = [a, b]\n    return x * 10 + y - -xs[0]\n"),
+    ("literal_expressions", "def entry(a, b):\n    y = 1 - 2 * 3\n    print(10 - 2 * 4 + 1, 2 * 3 + 4 * 5 - 6, 7 - 1 - 2, 2 + 3 * 4 * 2 - 1)\n    z = 8 - 2 - 1 * 3 + a\n    return y * 100 + z\n"),
+    ("precedence", "def entry(a, b):\n    return a + b * 2 - a * b + 3 - b - a * 2 * b\n"),
+    ("many_keywords", "def h(p, q=1, r=2, s=3):\n    return p * 1000 + q * 100 + r * 10 + s\n\ndef entry(a, b):\n    return h(a, r=b, s=4) + h(1, s=a, q=b, r=0) + h(p=2, s=b, q=a)\n"),
     ("if_elif_else", "def entry(a, b):\n    if a > 1:\n        r = 1\n    elif a > 0:\n        r = 2\n    elif b > 0:\n        r = 3\n    else:\n        r = 4\n    return r\n"),
     ("nested_if", "def entry(a, b):\n    r = 0\n    if a > 0:\n        if b > 0:\n            r = 1\n        else:\n            r = 2\n        r = r + 10\n    return r\n"),
     ("while_count", "def entry(a, b):\n    i = 0\n    s = 0\n    while i < a + 2:\n        s = s + i * b\n        i = i + 1\n    return s\n"),
@@ -81,7 +85,10 @@ class Gen:
         if d >= 2 or c < 0.35:
             return r.choice(vars_) if vars_ and r.random() < 0.7 else str(r.randint(0, 4))
         if c < 0.75:
-            return "(%s %s %s)" % (self.expr(vars_, d + 1), r.choice(["+", "-", "*"]), self.expr(vars_, d + 1))
+            # parentheses are dropped half of the time: the text is still valid, precedence decides its meaning
+            fmt = "(%s %s %s)" if r.random() < 0.5 else "%s %s %s"
+            lits = r.random() < 0.15
+            return fmt % (self.expr([] if lits else vars_, d + 1), r.choice(["+", "-", "*"]), self.expr([] if lits else vars_, d + 1))
         if c < 0.85:
             return "(-%s)" % self.expr(vars_, d + 1)
         return "(%s if %s else %s)" % (self.expr(vars_, d + 1), self.cond(vars_, d + 1), self.expr(vars_, d + 1))
